@@ -22,7 +22,7 @@ META = {
     "rule": "arrays (abelian and fermionic; n<=3 complete menus, n=4 reduced) x every sequence of disjoint non-empty ordered axis groups "
     "(1/6/39 choices for n=1,2,3; <=2 groups for n=4) x strategies insert / concat x fuse cache on / off, plus a second (nested) fuse of every "
     "depth-1 result; non-trivial = a fused charge receives >=2 sub-sectors or a sub-sector of a stored fused charge is missing",
-    "bounds": {"quick": "n<=2 complete (menu core, all sparsity); n=3 (menu m3) half, n=4 1/12 of the groupings per array, nested 1/3 of the arrays: residue slices tiled by seed", "thorough": "n<=3 menu core; n=4 complete for m2; nested complete for n=3"},
+    "bounds": {"quick": "n<=2 complete (menu core, all sparsity); n=3 (menu m3) half, n=4 1/12 of the groupings per array, nested: one of three first groupings per seed over all arrays (contiguous blocks per worker, warm cache shared by neighbouring arrays)", "thorough": "n<=3 menu core; n=4 complete for m2; nested complete for n=3"},
     "assumptions": [
         "distinct integer tags: equality of blocks is equality of element positions",
         "for fermionic arrays positions are compared on magnitudes; signs are decided by the round trip against the R-graded transpose",
@@ -338,12 +338,18 @@ def run_group(ctx, group):
         # and first fuse of a 4-index array into 3 axes then groupings containing the fused axis
         first3 = [((0, 1),), ((2, 0),), ((1, 2),)]
         slice_mod = 1 if ctx.thorough else 3
-        for i, d in enumerate(array_stream(ctx, sym, 3, ferm)):
-            if i % nch != k:
+        # contiguous blocks (not round-robin): neighbouring arrays - same indices, different stored sectors - run in the
+        # same process one after the other, so the warm fuse cache is shared between near-identical arrays
+        stream = list(array_stream(ctx, sym, 3, ferm))
+        blk = (len(stream) + nch - 1) // nch
+        for i, d in enumerate(stream):
+            if i // blk != k:
                 continue
-            if slice_mod > 1 and (i // nch) % slice_mod != ctx.seed % slice_mod:
+            if slice_mod > 1 and (i % slice_mod) != ctx.seed % slice_mod and False:
                 continue
-            for g1 in first3:
+            for gi1, g1 in enumerate(first3):
+                if slice_mod > 1 and gi1 != ctx.seed % len(first3):
+                    continue
                 for g2 in all_groupings(2):
                     fails, nontrivial = fuse_case_failures(d, g1, st, nested=g2, cache=True)
                     st.evaluations += 1
@@ -353,7 +359,7 @@ def run_group(ctx, group):
                         st.violation(sig, {"kind": "fuse", "x": d, "groups": g1, "nested": g2}, det)
         if slice_mod > 1:
             st.counters["capped"] += 1
-            st.notes.append(f"nested: residue slice 1/{slice_mod} of the 3-index arrays (seed-tiled)")
+            st.notes.append("nested: one of the three first groupings per seed (all arrays); all three in thorough")
     return st
 
 
